@@ -127,11 +127,6 @@ theorem rm_membership (s : Screen) (ms : List Nat) (p : Bool) (m : Nat) :
 theorem private_distinct (n : Nat) (h : 0 < n) : shiftModes [n] true ≠ shiftModes [n] false := by
   simp [shiftModes]; omega
 
-/-- the seven mode numbers, as regenerated from modes.rs -/
-theorem mode_numbers :
-    LNM = 20 ∧ IRM = 4 ∧ DECTCEM = 25 * 32 ∧ DECSCNM = 5 * 32 ∧ DECOM = 6 * 32 ∧ DECAWM = 7 * 32 ∧
-    DECCOLM = 3 * 32 := by decide
-
 /-! #### any other mode number: recorded, no other effect -/
 
 theorem sm_other (s : Screen) (ms : List Nat) (p : Bool) (h : plain (shiftModes ms p)) :
